@@ -40,7 +40,16 @@ def attacker_items(rng, k, knows=False):
                 u = E.asc(rng.choice(["admin", "root", "", "adm", "admin "]))
                 p = E.asc(rng.choice(["", "secret", "s3cre", "s3cret ", "S3CRET"]))
             items.append(("hello", E.hello(u, p)))
-        elif r < 0.5:
+        elif r < 0.46:
+            # malformed / truncated HELLO bodies: empty, length bytes only, every prefix of the RIGHT encoding
+            # (presenting a prefix of the credentials is not presenting the credentials), inconsistent lengths
+            full = [len(USER)] + E.asc(USER) + [len(PW)] + E.asc(PW)
+            body = rng.choice([[], [0], [0, 0][:rng.randrange(1, 3)], full[:rng.randrange(0, len(full))],
+                               full[:rng.randrange(0, len(full))], [len(USER)] + E.asc(USER),
+                               [len(USER)] + E.asc(USER) + [len(PW)] + E.asc(PW)[:3],
+                               [len(USER)] + E.asc(USER) + [3] + E.asc(PW)[:3], [200] + E.asc(USER), full[:-1] + [full[-1] ^ 1]])
+            items.append(("hello_raw", E.frame([5] + E.asc("HELLO") + body, cmd=True)))
+        elif r < 0.52:
             items.append(("welcome", E.welcome()))
         elif r < 0.58:
             items.append(("initiate", E.frame([8] + E.asc("INITIATE") + [rng.randrange(256) for _ in range(rng.randrange(0, 40))], cmd=True)))
@@ -55,8 +64,29 @@ def attacker_items(rng, k, knows=False):
     return items
 
 
+def directed_cases():
+    """PLAIN listener: every prefix of the right HELLO body (incl. the empty body), off-by-one lengths and a flipped
+    last byte, each followed by READY and a data frame - none of them presents the credentials"""
+    full = [len(USER)] + E.asc(USER) + [len(PW)] + E.asc(PW)
+    bodies = [full[:k] for k in range(len(full))] + [full[:-1] + [full[-1] ^ 1], full[:-1] + [0], [len(USER) + 1] + full[1:],
+              full[:len(USER) + 1] + [len(PW) - 1] + E.asc(PW)[:-1], [0, 0], [0, len(PW)] + E.asc(PW)]
+    out = []
+    for stype in ("PULL", "ROUTER"):
+        cfg = E.mk_cfg(server=True, stype=stype, plain=True, user=USER, pw=PW)
+        for b in bodies:
+            data = (E.greeting("PLAIN", 0) + E.frame([5] + E.asc("HELLO") + b, cmd=True) + E.ready("PUSH" if stype == "PULL" else "DEALER")
+                    + E.frame([1, 2, 3]))
+            c = c04.make_case(cfg, data, [], 0, 0, [], "atk:plain:rev3:directed-hello")
+            c["inputs"].append({"app": [{"more": False, "bytes": [1, 2, 3]}]})
+            c["opaque"] = False
+            c["knows"] = False
+            c["mech"] = "plain"
+            out.append(c)
+    return out
+
+
 def gen_cases(rng, n):
-    cases = []
+    cases = directed_cases()
     while len(cases) < n:
         cfg, mech = local_cfg(rng)
         knows = (mech == "plain") and rng.random() < 0.15
